@@ -194,6 +194,7 @@ class EngineRun:
         self.item_ids: list[str] = []
         self.raised = None
         self.stop_msgs = []
+        self.in_request = ""          # kind of the request being applied (flag events emitted meanwhile carry it)
         _installed["sink"] = self._node_sink
         self._install_stop_listener()
         self.engine.run(skip_timer_start=True)
@@ -245,7 +246,7 @@ class EngineRun:
         return self.item_ids.index(instance_id) + 1
 
     def _node_sink(self, node, flag, old, new):
-        self._ev("flag", n=str(node.id), cls=type(node).__name__, ins=str(getattr(node, "instruction_name", "") or ""),
+        self._ev("flag", ctx=self.in_request, oid=id(node) % 1000003, n=str(node.id), cls=type(node).__name__, ins=str(getattr(node, "instruction_name", "") or ""),
                  f=flag.lstrip("_"), old=num(old), new=num(new))
 
     def _drain_writes(self, phase):
@@ -255,28 +256,82 @@ class EngineRun:
 
     # ---- requests -----------------------------------------------------------------------------------------
     def set_method(self, lines: list[str], version: int = 0):
-        m = self.Mdl.Method(lines=[self.Mdl.MethodLine(id=f"L{i + 1}", content=c) for i, c in enumerate(lines)], version=version)
-        return self._request("edit", lambda: self.engine.set_method(m), lines=lines)
+        ids = [(f"L{i + 1}", c) for i, c in enumerate(lines)]
+        return self.set_method_ids(ids, version)
 
-    def set_method_ids(self, id_lines: list[tuple[str, str]], version: int = 0):
+    def edit_op(self, op: str, text: str = "Mark: edited"):
+        """live-edit relative to the current method: append (before the final blank line) | change-last (the last
+        instruction line) | change-first (the first instruction line after Base) | insert-blank"""
+        cur = list(getattr(self, "cur_lines", []))
+        if not cur:
+            return "rejected"
+        self.next_line = getattr(self, "next_line", len(cur)) + 1
+        new_id = f"L{self.next_line}"
+        idx_instr = [i for i, (_, c) in enumerate(cur) if c.strip() and not c.strip().startswith("#")]
+        if op == "append":
+            pos = len(cur) - 1 if cur[-1][1].strip() == "" else len(cur)
+            cur.insert(pos, (new_id, text))
+        elif op == "change-last" and idx_instr:
+            i = idx_instr[-1]
+            cur[i] = (cur[i][0], " " * (len(cur[i][1]) - len(cur[i][1].lstrip())) + text)
+        elif op == "change-first" and len(idx_instr) > 1:
+            i = idx_instr[1]
+            cur[i] = (cur[i][0], " " * (len(cur[i][1]) - len(cur[i][1].lstrip())) + text)
+        elif op == "insert-blank":
+            cur.insert(len(cur) - 1, (new_id, ""))
+        return self.set_method_ids(cur, 0, op=op)
+
+    def set_method_ids(self, id_lines: list[tuple[str, str]], version: int = 0, op: str = "set"):
         m = self.Mdl.Method(lines=[self.Mdl.MethodLine(id=i, content=c) for i, c in id_lines], version=version)
-        return self._request("edit", lambda: self.engine.set_method(m), lines=[list(x) for x in id_lines])
+        old = dict(getattr(self, "cur_lines", []))
+        changed = sorted(i for i, c in id_lines if i in old and old[i] != c)
+        removed = sorted(i for i in old if i not in dict(id_lines))
+        res = self._request("edit", lambda: self.engine.set_method(m), lines=[list(x) for x in id_lines], op=op,
+                            changed=changed, removed=removed)
+        if res != "rejected":
+            self.cur_lines = list(id_lines)
+            self.next_line = max(getattr(self, "next_line", 0), len(id_lines))
+        return res
 
     def _request(self, kind, fn, **kw):
         res, exc = "ok", "none"
-        pre = self._digest() if kind in ("cancel", "force") else None
+        pre = self._digest() if kind in ("cancel", "force", "edit", "inject") else None
+        self.in_request = kind
         try:
             r = fn()
             if isinstance(r, str):
                 res = r
         except Exception as ex:
             res, exc = "rejected", type(ex).__name__
+        finally:
+            self.in_request = ""
         if pre is not None:
             kw["unchanged"] = (pre == self._digest())
         self._ev("req", k=kind, res=res, exc=exc, **kw)
         if kind == "edit":
             self._log_program()
+        if kind == "inject" and res == "ok":
+            self._log_injected()
         return res
+
+    def _log_injected(self):
+        """the subtree of the code injected last (an InjectedNode registered as an interrupt)"""
+        try:
+            nodes = []
+            for intr in self.engine.interpreter.interrupts:
+                n = intr.node
+                if type(n).__name__ == "InjectedNode" and str(n.id) not in self.node_line:
+                    self.node_line[str(n.id)] = 0
+                    nodes.append({"id": str(n.id), "cls": "InjectedNode", "ins": "", "parent": "", "thr": False, "args": ""})
+                    for c in n.get_child_nodes(recursive=True):
+                        par = getattr(c, "parent", None)
+                        nodes.append({"id": str(c.id), "cls": type(c).__name__, "ins": str(getattr(c, "instruction_name", "") or ""),
+                                      "parent": str(par.id) if par is not None else str(n.id), "thr": c.threshold is not None,
+                                      "args": str(getattr(c, "arguments", "") or ""),
+                                      "thrv": None if c.threshold is None else float(c.threshold)})
+            self._ev("injprog", nodes=nodes)
+        except Exception as ex:
+            self._ev("injprog", nodes=[], exc=type(ex).__name__)
 
     def _digest(self):
         """observable state that a rejected request must leave alone"""
@@ -292,6 +347,7 @@ class EngineRun:
                 par = getattr(n, "parent", None)
                 nodes.append({"id": str(n.id), "cls": type(n).__name__, "ins": str(getattr(n, "instruction_name", "") or ""),
                               "parent": str(par.id) if par is not None else "", "thr": n.threshold is not None,
+                              "thrv": None if n.threshold is None else float(n.threshold),
                               "args": str(getattr(n, "arguments", "") or "")})
             self._ev("prog", nodes=nodes)
         except Exception as ex:
@@ -331,6 +387,8 @@ class EngineRun:
             return self.inject(req["text"])
         if k == "edit":
             return self.set_method(req["lines"], req.get("version", 0))
+        if k == "editop":
+            return self.edit_op(req["op"], req.get("text", "Mark: edited"))
         if k == "cancel":
             return self.cancel(req["item"])
         if k == "force":
@@ -395,6 +453,7 @@ class EngineRun:
             "bt": num(st[S.BLOCK_TIME].get_value()), "st": num(st[S.SCOPE_TIME].get_value()),
             "block": num(st[S.BLOCK].get_value()), "base": num(st[S.BASE].get_value()), "mark": num(st[S.MARK].get_value()),
             "out": {k: num(self.uod.tags[k].get_value()) for k in ("Out1", "Out2")},
+            "inv": num(self.uod.tags["In"].get_value()),
             "hw": {k: num(v) for k, v in self.hw.mem.items()},
             "inst": sorted(self.uod.command_instances.keys()),
             "simulated": sorted(t.name for t in e._iter_all_tags() if getattr(t, "simulated", False)),
